@@ -7,7 +7,7 @@ EXPLANATION = ("The canonical form is specified in Coq from the encoding specifi
                "rules, enc = contiguous pre-order layout, cparse = strict sequential decoder) and proved: one normal form per "
                "schema-level equality class (layout/version independence), the normal form equals the value, normalisation is "
                "idempotent, output is one word-aligned segment, capabilities have no canonical form; the decoder round trip is "
-               "proved for the pointer skeleton. capnp.Canonicalize is modelled step by step over the builder and reader models "
+               "proved for everything but struct lists. capnp.Canonicalize is modelled step by step over the builder and reader models "
                "(coq/Value/CanonM.v). On every generated input the harness compares Canonicalize's bytes with the extracted "
                "model AND with canon applied to the walked tree, and evaluates the property's own predicates on the "
                "implementation (reads back Equal, idempotent, same bytes for all layouts and schema versions of a value).")
@@ -18,14 +18,12 @@ TRUSTED = ["canonical-form specification coq/Value/CanonSpec.v written from enco
            "the strict decoder cparse is tied to the library's reader only by the run (flag R: output read back with the Go "
            "reader is Equal to the input; flag P: cparse accepts every canon output and re-canonicalises to the same bytes)"]
 MODELLED = ["single-segment arena growth (Builder.v allocSegment/nextAlloc)", "Go slices with cap == len for source segments"]
-ASSUMPTIONS = ["far pointers land on non-null words (a far pointer to a null word in a trailing pointer slot is not truncated by "
-               "canonicalStructSize: observation O3, not generated)",
-               "values are well formed (wfv) and sizes fit their pointer fields; 64-bit platform"]
+ASSUMPTIONS = ["values are well formed (wfv) and sizes fit their pointer fields; 64-bit platform"]
 LEVEL_TEXT = ("Other: [T1] proved for all values: canon_unique (value_eqs a b -> canon a = canon b), norm_veq, canon_norm "
               "(idempotence at value level), canon_aligned, canon_cap_none; the decoder round trip cparse(enc v) = v is proved "
-              "for the pointer skeleton (null, structs, void and pointer lists) and checked by evaluation for packed and struct "
-              "lists. [T2] (Go-faithful model = specification) stated, proved for the null struct, otherwise by differential run. "
-              "Defects F04 and O2 found by the run and fixed; pre-fix models kept with witnesses.")
+              "for null, structs, void, pointer, bit and primitive lists and checked by evaluation for struct "
+              "lists. The uniqueness relation is value_eqs (no list upgrade): value_eq a b -> canon a = canon b is false. [T2] (Go-faithful model = specification) stated, proved for the null struct, otherwise by differential run. "
+              "Defects F04, O2 and O3 found by the run and fixed; pre-fix models kept with witnesses.")
 LEVEL_NOTE = ("Trusted: Coq kernel, extraction, harness, hand-written model and specification. Not proved: cparse_enc_statement "
               "for bit/primitive/struct lists, canon_m_correct_statement.")
 TECHNIQUE = "Coq proof over an executable model + extracted-model/implementation differential run"
